@@ -429,11 +429,14 @@ fn block_iters(b: &Block, sub_delay: u16) -> u64 {
         Block::Bset { .. } | Block::Bclr { .. } => 1,
         Block::Arith(_) => 5,
         Block::Call => 3 + 2 * sub_delay.max(1) as u64,
-        Block::Write { .. } | Block::WriteAt { .. } | Block::SetHandler { .. } | Block::Syscall { .. } => 3,
+        Block::Write { .. } | Block::WriteAt { .. } | Block::WriteArgAt { .. } | Block::SetHandler { .. } | Block::SetHandlerAt { .. } | Block::Syscall { .. } => 3,
         Block::Trapa(_) => 12,
         Block::SetCcr(_) => 5,
         Block::Raw(v) => (v.len() as u64 + 1) / 2,
         Block::Tick => 5,
+        Block::Heavy => 2,
+        Block::SetVector { .. } => 4,
+        Block::LoadEr5(_) => 1,
     }
 }
 
